@@ -199,9 +199,11 @@ class SetMembersMixin:
         parts = _get_parts(key)
         if len(parts) == 1:
             name = parts[0]
+            replaced = None
             if name in self.members:  # type: ignore[attr-defined]
                 member = self.members[name]  # type: ignore[attr-defined]
                 if not member.is_alias:
+                    replaced = member
                     # When reassigning a module to an existing one,
                     # try to merge them as one regular and one stubs module
                     # (implicit support for .pyi modules).
@@ -212,14 +214,17 @@ class SetMembersMixin:
                             if value.is_module and value.filepath != member.filepath:
                                 with suppress(ValueError):
                                     value = merge_stubs(member, value)  # type: ignore[arg-type]
-                    for alias in member.aliases.values():
-                        with suppress(AliasResolutionError, CyclicAliasError):
-                            alias.target = value
             self.members[name] = value  # type: ignore[attr-defined]
             if self.is_collection:  # type: ignore[attr-defined]
                 value._modules_collection = self  # type: ignore[union-attr]
             else:
                 value.parent = self  # type: ignore[assignment]
+            if replaced is not None:
+                # Re-target aliases once the new member is attached,
+                # so that they record its actual path, not its detached one.
+                for alias in replaced.aliases.values():
+                    with suppress(AliasResolutionError, CyclicAliasError):
+                        alias.target = value
         else:
             self.members[parts[0]].set_member(parts[1:], value)  # type: ignore[attr-defined]
 
